@@ -237,8 +237,9 @@ def prepare(hyps: List[z3.ExprRef], goal: z3.ExprRef) -> Tuple[List[z3.ExprRef],
     return out, stats
 
 
-NATIVE_MS = 30000  # stage 1 is bounded by the number of instances (deterministic), not by time
+NATIVE_MS = 120000  # stage 1 is bounded by the number of instances (deterministic), not by time
 QI_MAX = int(os.environ.get("VERIF_QI_MAX", "8000"))
+STAGE2_RLIMIT = int(os.environ.get("VERIF_STAGE2_RLIMIT", "40000000"))
 # z3's auto-configuration picks, for queries with integer-bound quantifiers, a strategy that does not return on *satisfiable*
 # queries before the timeout (a trivial `ForAll i. stoi(itos(i)) == i` alone spins for the full 30 s); with auto_config off
 # E-matching ends at once with "incomplete quantifiers".  Verdicts of all obligations of the unchanged tree are identical in
@@ -279,7 +280,8 @@ def check(hyps: List[z3.ExprRef], goal: z3.ExprRef, timeout_ms: int = 10000, all
     # stage 1b: the same with a ten times larger instance bound (guards against a verdict that flips on a
     # harmless edit because a proof needs a few more instances)
     s = z3.Solver()
-    s.set("timeout", 10000)
+    s.set("rlimit", STAGE2_RLIMIT)  # deterministic budget; the timeout is a backstop only
+    s.set("timeout", 120000)
     s.set("smt.mbqi", False)
     s.set("smt.qi.max_instances", QI_MAX * 10)
     if NO_AUTOCONFIG:
@@ -296,12 +298,19 @@ def check(hyps: List[z3.ExprRef], goal: z3.ExprRef, timeout_ms: int = 10000, all
     stats.update(st2)
     stats["backend"] = "z3-manual-instantiation"
     s = z3.Solver()
-    s.set("timeout", timeout_ms)
+    # the budget of the quantifier-free query is a *resource* limit (deterministic, independent of machine load); the
+    # wall-clock timeout is only a backstop ten times larger than what the limit corresponds to on an idle machine
+    s.set("rlimit", STAGE2_RLIMIT)
+    s.set("timeout", max(timeout_ms * 10, 60000))
     for f in fs:
         s.add(f)
     r = s.check()
     stats["ms"] = int((time.time() - t0) * 1000)
     stats["assertions"] = len(fs)
+    try:
+        stats["rlimit_used"] = [v for k, v in s.statistics() if k == "rlimit count"][0]
+    except Exception:
+        pass
     if r == z3.unsat:
         return "unsat", None, stats
     if r == z3.sat:
